@@ -68,13 +68,19 @@ class Dims:
             if n in ("Div", "div_ceil"):
                 # the rounding-up idiom (a + w - 1) / w adds the divisor to the dividend: treat as div_ceil(a, w)
                 if n == "Div":
-                    from .terms import linear
-                    atoms, c = linear(a[0])
-                    rw = repr(a[1])
-                    if c == -1 and rw in atoms and atoms[rw][1] == 1 and len(atoms) == 2:
-                        rest = [v[0] for r, v in atoms.items() if r != rw and v[1] == 1]
-                        if len(rest) == 1:
-                            return dmul(self.of(rest[0]) or {}, self.of(a[1]) or {}, -1)
+                    from .terms import linear, simplify
+                    la, ca = linear(a[0])
+                    lb, cb = linear(a[1])
+                    if ca - cb == -1 and lb and all(r in la and la[r][1] >= v[1] for r, v in lb.items()):
+                        rest = []
+                        for r, (atom, c) in la.items():
+                            c2 = c - (lb[r][1] if r in lb else 0)
+                            if c2 == 0:
+                                continue
+                            rest.append(atom if c2 == 1 else ("op", "Mul", (("const", c2), atom)))
+                        if rest:
+                            rt = rest[0] if len(rest) == 1 else simplify(("op", "Add", tuple(rest)))
+                            return dmul(self.of(rt) or {}, self.of(a[1]) or {}, -1)
                 da, db = self.of(a[0]), self.of(a[1])
                 return dmul(da or {}, db or {}, -1)
             if n == "Rem":
